@@ -225,7 +225,7 @@ impl FiniteDomain {
 
 impl PartialEq for FiniteDomain {
     fn eq(&self, other: &FiniteDomain) -> bool {
-        self.diff(other).is_none()
+        self.diff(other).is_none() && other.diff(self).is_none()
     }
 }
 
